@@ -12,13 +12,23 @@
 
 /// a live secret is identified by (folder id bytes, secret id bytes)
 pub type DocId = (Seq<u8>, Seq<u8>);
+/// unit search `MetaV`: label, tags, kind, favourite flag
+#[verifier::external_body]
+pub ghost struct IdxMeta { _p: () }
+/// the four fields of a secret's meta data that a document carries
+pub uninterp spec fn idx_meta(m: SecretMetaV) -> IdxMeta;
+/// the lower-cased label: the part of the meta data that enters the document key
+pub uninterp spec fn label_key(m: IdxMeta) -> Seq<char>;
+/// secret.rs:421 `touch` sets `last_updated` only: label, tags, kind, favourite flag are kept
+pub broadcast axiom fn axiom_touch_keeps_idx_meta(m: SecretMetaV)
+    ensures #[trigger] idx_meta(touched(m)) == idx_meta(m);
 
 /// search.rs `struct Document { folder_id, secret_id, meta, extra }` — opaque
 #[verifier::external_body]
 pub struct Document { _p: () }
 impl Document {
     pub uninterp spec fn did(&self) -> DocId;
-    pub uninterp spec fn dmeta(&self) -> SecretMetaV;
+    pub uninterp spec fn dmeta(&self) -> IdxMeta;
 }
 /// search.rs `struct DocumentKey(String, VaultId, SecretId)` — opaque
 #[verifier::external_body]
@@ -29,12 +39,12 @@ impl DocumentKey {
 }
 
 /// the documents of the folders other than `f` are the same in `a` and `b`
-pub open spec fn other_folders_same(a: Map<DocId, SecretMetaV>, b: Map<DocId, SecretMetaV>, f: Seq<u8>) -> bool {
+pub open spec fn other_folders_same(a: Map<DocId, IdxMeta>, b: Map<DocId, IdxMeta>, f: Seq<u8>) -> bool {
     forall|d: DocId| #![trigger a.contains_key(d)] #![trigger b.contains_key(d)] d.0 != f ==>
         (a.contains_key(d) <==> b.contains_key(d)) && (a.contains_key(d) ==> a[d] == b[d])
 }
 /// unit search `without_folder`
-pub open spec fn without_folder(docs: Map<DocId, SecretMetaV>, f: Seq<u8>) -> Map<DocId, SecretMetaV> {
+pub open spec fn without_folder(docs: Map<DocId, IdxMeta>, f: Seq<u8>) -> Map<DocId, IdxMeta> {
     docs.restrict(docs.dom().filter(|d: DocId| d.0 != f))
 }
 
@@ -45,7 +55,7 @@ pub open spec fn without_folder(docs: Map<DocId, SecretMetaV>, f: Seq<u8>) -> Ma
 #[verifier::external_body]
 pub struct SearchIndex { _p: () }
 impl SearchIndex {
-    pub uninterp spec fn docs(&self) -> Map<DocId, SecretMetaV>;
+    pub uninterp spec fn docs(&self) -> Map<DocId, IdxMeta>;
     pub uninterp spec fn archive(&self) -> Option<Seq<u8>>;
     pub uninterp spec fn inv(&self) -> bool;
 
@@ -55,19 +65,23 @@ impl SearchIndex {
         requires self.inv(),
         ensures
             r.is_some() == !self.docs().contains_key((folder_id@, id@)),
-            r matches Some((k, d)) ==> d.did() == (folder_id@, id@) && d.dmeta() == meta@ && k.for_doc(d),
+            r matches Some((k, d)) ==> d.did() == (folder_id@, id@) && d.dmeta() == idx_meta(meta@) && k.for_doc(d),
     { unimplemented!() }
     /// unit search [commit_keeps_inv], [commit_view].  Precondition of unit search: `k@ == key_of(d@)`
-    /// and "an indexed (folder, secret) is stored under `k`"; required here in the stronger form
-    /// "(folder, secret) is not indexed" (what `prepare` returning `Some` established).
+    /// and "an indexed (folder, secret) is stored under `k`".  Under IDX_INV the stored key of an
+    /// indexed (folder, secret) is (lower-cased label of the stored document, folder, secret)
+    /// (`keyed` + lemma_docs_all of unit search), so the second part is stated here as: the stored
+    /// document and `d` have the same lower-cased label.
     #[verifier::external_body]
     pub fn commit(&mut self, doc: Option<(DocumentKey, Document)>)
         requires
             old(self).inv(),
-            doc matches Some((k, d)) ==> k.for_doc(d) && !old(self).docs().contains_key(d.did()),
+            doc matches Some((k, d)) ==> k.for_doc(d) && (old(self).docs().contains_key(d.did()) ==> label_key(old(self).docs()[d.did()]) == label_key(d.dmeta())),
         ensures
             final(self).inv(), final(self).archive() == old(self).archive(),
-            final(self).docs() == (match doc { Some((k, d)) => old(self).docs().insert(d.did(), d.dmeta()), None => old(self).docs() }),
+            final(self).docs() == (match doc {
+                Some((k, d)) => if old(self).docs().contains_key(d.did()) { old(self).docs() } else { old(self).docs().insert(d.did(), d.dmeta()) },
+                None => old(self).docs() }),
     { unimplemented!() }
     /// unit search [add_keeps_inv], [add_view] (`prepare` + `commit`: an indexed document is kept)
     #[verifier::external_body]
@@ -75,7 +89,7 @@ impl SearchIndex {
         requires old(self).inv(),
         ensures
             final(self).inv(), final(self).archive() == old(self).archive(),
-            final(self).docs() == (if old(self).docs().contains_key((folder_id@, id@)) { old(self).docs() } else { old(self).docs().insert((folder_id@, id@), meta@) }),
+            final(self).docs() == (if old(self).docs().contains_key((folder_id@, id@)) { old(self).docs() } else { old(self).docs().insert((folder_id@, id@), idx_meta(meta@)) }),
     { unimplemented!() }
     /// unit search [remove_view], [remove_keeps_inv] (holds since fix 86018de, D15)
     #[verifier::external_body]
@@ -99,6 +113,6 @@ impl SearchIndex {
         requires old(self).inv(),
         ensures
             final(self).inv(), final(self).archive() == old(self).archive(),
-            final(self).docs() == Map::<DocId, SecretMetaV>::empty(),
+            final(self).docs() == Map::<DocId, IdxMeta>::empty(),
     { unimplemented!() }
 }
